@@ -22,6 +22,7 @@ type c02Op struct {
 	keys              []string
 	quiet             bool
 	nullVer, emptyVer bool // delete: with ?versionId=null / ?versionId=
+	bogusVer          bool // multi-delete: every entry names a version id that does not exist
 }
 
 func (o c02Op) String() string {
@@ -45,6 +46,9 @@ func (o c02Op) String() string {
 		}
 		return fmt.Sprintf("delete %s/%s", o.b, o.k)
 	case "multi":
+		if o.bogusVer {
+			return fmt.Sprintf("multi-delete %s %v VersionId=<no such version>", o.b, o.keys)
+		}
 		if o.nullVer {
 			return fmt.Sprintf("multi-delete %s %v VersionId=null", o.b, o.keys)
 		}
@@ -139,6 +143,8 @@ func c02BuildOps(u *c02Universe) []engine.Op {
 			}
 			// the way boto3 empties a bucket: every entry names the version id the listing showed, "null"
 			ops = append(ops, c02Op{kind: "multi", b: b, keys: u.keys, nullVer: true})
+			// entries that name a version which does not exist delete nothing
+			ops = append(ops, c02Op{kind: "multi", b: b, keys: u.keys, bogusVer: true})
 		}
 	}
 	return ops
@@ -295,6 +301,17 @@ func (s *c02Sys) Apply(op engine.Op) (string, *engine.Violation) {
 		mb := multiDeleteBody(o.keys, o.quiet)
 		if o.nullVer {
 			mb = []byte(strings.ReplaceAll(string(mb), "</Key>", "</Key><VersionId>null</VersionId>"))
+		}
+		if o.bogusVer {
+			mb = []byte(strings.ReplaceAll(string(mb), "</Key>", "</Key><VersionId>3HL4kqtJvjVBH40Nrjfkd</VersionId>"))
+			r := s.w.Do(drv.Req{Method: "POST", Path: "/" + o.b, Query: "delete", Body: mb})
+			// whatever the answer says (the statement leaves it open): nothing is deleted, which the
+			// reads evaluated in the next state decide; a missing bucket is still a missing bucket
+			e := s.m.MultiDelete(o.b, nil) // (as far as the bucket goes it is a multi-delete like any other)
+			if !matchExp(r, e) {
+				return bad("status", r, e, "")
+			}
+			return respSig(r), nil
 		}
 		r := s.w.Do(drv.Req{Method: "POST", Path: "/" + o.b, Query: "delete", Body: mb})
 		e := s.m.MultiDelete(o.b, o.keys)
